@@ -2,7 +2,7 @@
    Statements only; proofs in Budget.v (simulation "the limited run is a prefix of the unlimited run"),
    BudgetTerm.v (termination under a budget, any grammar), Glue.v. *)
 From Coq Require Import List String NArith.
-From Bexpr Require Import Base Ast Unicode Peg Typing Actions GoGrammar Budget BudgetTerm Api Glue ModelApi.
+From Bexpr Require Import Base Ast Unicode Peg Actions GoGrammar Budget BudgetTerm Api C11b Canon ModelApi.
 
 (* if the unlimited parse takes N0 steps: every budget n >= N0 gives exactly the unlimited result, and every budget
    n < N0 is rejected with the max-expressions flag after exactly n+1 steps *)
@@ -31,7 +31,7 @@ Print Assumptions c11_budgeted_parse_terminates.
 (* WithMaxExpressions(0) is no budget *)
 Theorem c11_zero_is_unlimited : forall fuel src os, o_max (get_opts os) = 0%N ->
   create (fun mx s => the_parse mx fuel s) src os = create (fun mx s => the_parse mx fuel s) src (app os (cons (OMaxExpr 0) nil)).
-Proof. exact c11_zero_is_unlimited. Qed.
+Proof. exact C11b.c11_zero_is_unlimited. Qed.
 Print Assumptions c11_zero_is_unlimited.
 
 (* the executable entry point of the correspondence check *)
@@ -39,5 +39,5 @@ Theorem c11_model_parse_budget : forall s N0,
   pcount (model_parse None s) = Some N0 ->
   (forall n, (N0 <= n)%N -> model_parse (Some n) s = model_parse None s) /\
   (forall n, (n < N0)%N -> exists k, model_parse (Some n) s = Rejected k (N.succ n) true).
-Proof. intros s N0. exact (parse_budget go_grammar action_sem pred_sem big_fuel s N0). Qed.
+Proof. intros s N0. exact (parse_budget (canon_go go_grammar) action_sem pred_sem big_fuel s N0). Qed.
 Print Assumptions c11_model_parse_budget.
